@@ -97,7 +97,7 @@ Failing ==
      \cup (IF C_DQ THEN {} ELSE {"DQ"}) \cup (IF C_Did THEN {} ELSE {"Did"})
      \cup (IF C_SpyCalls THEN {} ELSE {"SpyCalls"})
 
-Kind == IF StepOp /\ ~Raises /\ started
+Kind == IF StepOp /\ ~Raises /\ started /\ E.k # "start"
         THEN (IF cur' # cur \/ \E i \in 1..Len(alog') : alog'[i][1] = "EXIT_SIGNAL" THEN "tran" ELSE "stay")
         ELSE E.k
 
